@@ -1,8 +1,14 @@
-from .. import family_exec
+from .. import family_exec, driver_timing
+
+
+def _extra(rep, tier):
+    # the length of a write-out at ANY tick rate (up to 100000 per second, rates that do not divide a power of ten), decided exactly
+    mon = driver_timing.check(rep, tier, only="C10")
+    rep.traces += mon.traces
 
 
 def run(tier):
-    return family_exec.run("C10", tier)
+    return family_exec.run("C10", tier, extra=_extra)
 
 
 def replay(path):
